@@ -112,11 +112,19 @@ def rewrite_calls(text, pattern, builder, tag):
     return out, inst
 
 
+def idx_loop(idx, length, elem_decl):
+    """header of an index loop in WHILE form: the cursor `nxt_<idx>` is advanced before the body runs, so `continue`
+    keeps its meaning (installed Verus: no `continue` in for-loops); inside the body `<idx>` is the current index.
+    The markers tell the splicer the cursor / bound (it adds `nxt <= len` and `decreases`) and where the body starts."""
+    return "let mut nxt_%s: usize = 0; while nxt_%s < %s /*@L:%s:%s*/ { let %s = nxt_%s; nxt_%s += 1; %s /*@B*/" % (
+        idx, idx, length, idx, length, idx, idx, idx, elem_decl)
+
+
 # ---------------------------------------------------------------------------------------------
 # R1  for (i, x) in E.iter().enumerate() {   ->  for i in 0..E.len() { let x = &E[i];
 def R1(text, cfg=None):
     pat = r"for\s*\(\s*(" + ID + r")\s*,\s*(" + ID + r")\s*\)\s*in\s*(" + PATH + r")\s*\.\s*iter\s*\(\s*\)\s*\.\s*enumerate\s*\(\s*\)\s*\{"
-    return _sub(pat, lambda m: "for %s in 0..%s.len() { let %s = vx_at(%s, %s);" % (m.group(1), m.group(3), m.group(2), m.group(3), m.group(1)), text, "R1")
+    return _sub(pat, lambda m: idx_loop(m.group(1), m.group(3) + ".len()", "let %s = vx_at(%s, %s);" % (m.group(2), m.group(3), m.group(1))), text, "R1")
 
 
 # R2  for x in E {  (E a slice / &Vec named in cfg['slices'])  -> index loop
@@ -130,14 +138,13 @@ def R2(text, cfg=None):
         e, _, how = ent.partition(":")
         how = how or e
         pat = r"for\s+(" + ID + r")\s+in\s+&?\s*" + re.escape(e) + r"(?:\s*\.\s*iter\s*\(\s*\))?\s*\{"
-        text, inst = _sub(pat, lambda m, e=e, how=how: "for idx_%s in 0..%s.len() { let %s = vx_at(%s, idx_%s);" % (m.group(1), e, m.group(1), how, m.group(1)), text, "R2")
+        text, inst = _sub(pat, lambda m, e=e, how=how: idx_loop("idx_" + m.group(1), e + ".len()", "let %s = vx_at(%s, idx_%s);" % (m.group(1), how, m.group(1))), text, "R2")
         inst_all += inst
     for ent in (cfg or {}).get("slices_while", []):
         e, _, how = ent.partition(":")
         how = how or e
         pat = r"for\s+(" + ID + r")\s+in\s+&?\s*" + re.escape(e) + r"(?:\s*\.\s*iter\s*\(\s*\))?\s*\{"
-        text, inst = _sub(pat, lambda m, e=e, how=how: "let mut idx_%s: usize = 0; while idx_%s < %s.len() { let %s = vx_at(%s, idx_%s); idx_%s += 1;" % (
-            m.group(1), m.group(1), e, m.group(1), how, m.group(1), m.group(1)), text, "R2")
+        text, inst = _sub(pat, lambda m, e=e, how=how: idx_loop("idx_" + m.group(1), e + ".len()", "let %s = vx_at(%s, idx_%s);" % (m.group(1), how, m.group(1))), text, "R2")
         inst_all += inst
     return text, inst_all
 
@@ -284,7 +291,7 @@ def R2b(text, cfg=None):
     inst_all = []
     for e in (cfg or {}).get("byval", []):
         pat = r"for\s+(" + ID + r")\s+in\s+" + re.escape(e) + r"\s*\{"
-        text, inst = _sub(pat, lambda m, e=e: "for idx_%s in 0..%s.len() { let %s = %s[idx_%s];" % (m.group(1), e, m.group(1), e, m.group(1)), text, "R2")
+        text, inst = _sub(pat, lambda m, e=e: idx_loop("idx_" + m.group(1), e + ".len()", "let %s = %s[idx_%s];" % (m.group(1), e, m.group(1))), text, "R2")
         inst_all += inst
     return text, inst_all
 
@@ -293,8 +300,7 @@ def R2b(text, cfg=None):
 #      enumeration of the key set, index incremented before the body so that `continue` keeps its meaning
 def R18(text, cfg=None):
     pat = r"for\s+(" + ID + r")\s+in\s+(" + PATH + r")\s*\.\s*keys\s*\(\s*\)\s*\{"
-    return _sub(pat, lambda m: "let keys_%s = vx_keys_snapshot(&%s); let mut idx_%s: usize = 0; while idx_%s < keys_%s.len() { let %s = keys_%s[idx_%s]; idx_%s += 1;" % (
-        m.group(1), m.group(2), m.group(1), m.group(1), m.group(1), m.group(1), m.group(1), m.group(1), m.group(1)), text, "R18")
+    return _sub(pat, lambda m: "let keys_%s = vx_keys_snapshot(&%s); " % (m.group(1), m.group(2)) + idx_loop("idx_" + m.group(1), "keys_%s.len()" % m.group(1), "let %s = keys_%s[idx_%s];" % (m.group(1), m.group(1), m.group(1))), text, "R18")
 
 
 # R20  `if let Some(&v) = E {`  ->  `if let Some(v__r) = E { let v = *v__r;`   (ref patterns unsupported by Verus)
@@ -309,8 +315,7 @@ def R18b(text, cfg=None):
     inst_all = []
     for expr, snap in (cfg or {}).get("maps", {}).items():
         pat = r"for\s*\(\s*(" + ID + r")\s*,\s*(\([^()]*\)|" + ID + r")\s*\)\s*in\s*" + re.escape(expr).replace(r"\ ", r"\s*") + r"\s*\{"
-        text, inst = _sub(pat, lambda m, snap=snap: "let ents_%s = %s; for idx_%s in 0..ents_%s.len() { let (%s, %s) = ents_%s[idx_%s];" % (
-            m.group(1), snap, m.group(1), m.group(1), m.group(1), m.group(2), m.group(1), m.group(1)), text, "R18")
+        text, inst = _sub(pat, lambda m, snap=snap: "let ents_%s = %s; " % (m.group(1), snap) + idx_loop("idx_" + m.group(1), "ents_%s.len()" % m.group(1), "let (%s, %s) = ents_%s[idx_%s];" % (m.group(1), m.group(2), m.group(1), m.group(1))), text, "R18")
         inst_all += inst
     return text, inst_all
 
@@ -411,9 +416,9 @@ def R12chain(text, cfg=None):
                     ents_name = "ents_" + c.get("tag", re.sub(r"\W", "", src))
                     inner = inner.replace(ents, ents_name)
                     snap_decl = "" if n > 1 else "let %s = %s; " % (ents_name, c["snap"])
-                    rep = "%sfor %s in 0..%s.len() {%s }" % (snap_decl, idx, ents_name, inner)
+                    rep = "%s%s%s }" % (snap_decl, idx_loop(idx, ents_name + ".len()", ""), inner)
                 else:
-                    rep = "%sfor %s in 0..%s.len() {%s }" % (snap_decl, idx, ents, inner)
+                    rep = "%s%s%s }" % (snap_decl, idx_loop(idx, ents + ".len()", ""), inner)
                 text = text[:start] + rep + text[e2:]
                 inst.append("R12: chain on `%s` ending in for_each -> explicit loop (closure bodies verbatim)" % src)
                 pos = start + len(rep)
@@ -434,7 +439,7 @@ def R12chain(text, cfg=None):
                     e2 += 1
                 ents_name = ("ents_" + c.get("tag", re.sub(r"\W", "", src))) if c.get("shared_snapshot") else ents
                 loop_body = body_open.replace(ents, ents_name) + " " + c["push"].replace("{name}", name).replace("{x}", val) + " }" * closes
-                rep = "let mut %s: %s = %s; let %s = %s; for %s in 0..%s.len() {%s }" % (name, ty, c["new"], ents_name, c["snap"], idx, ents_name, loop_body)
+                rep = "let mut %s: %s = %s; let %s = %s; %s%s }" % (name, ty, c["new"], ents_name, c["snap"], idx_loop(idx, ents_name + ".len()", ""), loop_body)
                 text = text[:lm.start()] + rep + text[e2:]
                 inst.append("R12: `let %s = <chain on %s>.collect()` -> explicit loop (closure bodies verbatim)" % (name, src))
                 pos = lm.start() + len(rep)
@@ -447,7 +452,7 @@ def R12chain(text, cfg=None):
                     e2 += 1
                 name = "out_" + tag
                 loop_body = body_open + " " + c["push"].replace("{name}", name).replace("{x}", val) + " }" * closes
-                rep = "{ let mut %s = %s; let %s = %s; for %s in 0..%s.len() {%s } Ok(%s) }" % (name, c["new"], ents, c["snap"], idx, ents, loop_body, name)
+                rep = "{ let mut %s = %s; let %s = %s; %s%s } Ok(%s) }" % (name, c["new"], ents, c["snap"], idx_loop(idx, ents + ".len()", ""), loop_body, name)
                 text = text[:om.start()] + rep + text[e2:]
                 inst.append("R12: `Ok(<chain on %s>.collect())` -> explicit loop (closure bodies verbatim)" % src)
                 pos = om.start() + len(rep)
